@@ -8,7 +8,9 @@ Three streams (all randomness from random.Random(ctx.seed ...)):
      np.diag / np.trace, and structured operators (tridiagonal / permutation / diagonal products and sums wrapped
      in no_dispatch) against the Lean model run with the same block-size constant 100;
   C  the Lean model with scaled-down block-size constants (bs in {1,2,3,4,5,7}, n in 2..9) against the
-     specification (what the theorem C08_exact states for every bs; an executable sanity check of the model).
+     specification (what the theorem C08_exact states for every bs; an executable sanity check of the model);
+  D  rule selection: the rule of diag / trace the LIVE resolver of /repo selects for a real instance of every
+     modelled kind (alg in {Auto(), Exact()}) against the rule the code model applies.
 """
 import collections
 import json
@@ -43,13 +45,50 @@ KINDS = ["dense", "tri", "sparse", "scalar", "eye", "diag", "tridiag", "perm", "
          "prod", "sum", "kron", "kronsum", "bdiag", "T", "H", "slice", "concat", "generic", "ann", "gram", "symslice"]
 ALGS = ["omitted", "auto", "exact"]
 BIG_N = [99, 100, 101, 130, 199, 200, 201, 250]
+MAX_REPORTS = 4
+
+
+TENSOR = ("kron", "kronsum", "bdiag")
+PROBED = ("prod", "T", "H", "slice", "concat", "generic", "gram", "symslice")   # kinds whose diag is the probing loop
 
 
 class SqGen(gen.Gen):
-    """gen.Gen, but a square Kronecker / BlockDiag mostly gets square members (the clause-free region)"""
+    """gen.Gen, but
+    (a) a square Kronecker / BlockDiag mostly gets square members (the clause-free region);
+    (b) BELOW a node whose diagonal is computed by the probing loop (Product, Transpose, Sliced, no_dispatch, ...)
+        a Kronecker / KronSum / BlockDiag node gets leaf members only and is not nested in another one: the executable
+        Lean model of `A @ X` (C01, Model/Matmat.lean: `FacAct.act`, the `act` arguments of the Sum / Sliced / Concatenated
+        kernels) re-evaluates a member's product once per entry of the enclosing node, i.e. its cost is exponential in the
+        nesting depth; the depth of such a subtree is therefore bounded by its extent.  Nesting of the structural kinds
+        inside each other and inside Sum (the rule recursion of diag / trace) is unrestricted."""
     p_square = 0.8
+    probed = 0      # number of enclosing probing-loop kinds
+    tensor_below_probed = 0
 
     def comp(self, k, r, c, depth):
+        if k in PROBED:
+            if self.probed == 0:
+                # the subtree below goes through `A @ chunk`: bound its depth by its extent (see the class comment;
+                # Sum / Sliced / Concatenated members are re-evaluated per entry as well)
+                depth = min(depth, 1 if r * c >= 36 else 2 if r * c >= 16 else 3)
+            self.probed += 1
+            try:
+                return super().comp(k, r, c, depth)
+            finally:
+                self.probed -= 1
+        if k not in TENSOR:
+            return super().comp(k, r, c, depth)
+        if self.probed == 0:
+            return self.tensor(k, r, c, depth)
+        if self.tensor_below_probed >= 1 or r * c > 64:
+            return None
+        self.tensor_below_probed += 1
+        try:
+            return self.tensor(k, r, c, 1)      # depth 1: the members are leaves
+        finally:
+            self.tensor_below_probed -= 1
+
+    def tensor(self, k, r, c, depth):
         rng = self.rng
         d = depth - 1
         if r == c and k == "kron" and rng.random() < self.p_square:
@@ -156,12 +195,44 @@ def classify(case, ans, real, known):
             return "known", clauses
         return "violation", "real = code model, both differ from the true values and no named clause covers the case"
     if real_is_err:
+        if case["call"] == "diag" and ans.get("drule", "").endswith("LinearOperator"):
+            # only a structural rule may refuse; the exact / automatic algorithm on the generic path must return the diagonal
+            return "violation", f"the probing algorithm refuses a square operator ({real['err']}: {real.get('msg', '')})"
         return "stale-model", f"real refuses ({real['err']}: {real.get('msg', '')}), the model returns values"
     if real_eq_spec:
         return "stale-model", "real returns the true values, the model predicts others"
     if clauses:
         return "stale-model", "real, model and specification all differ on a case violating " + ",".join(clauses)
     return "violation", f"real returns values different from the true {case['call']} (and from the model)"
+
+
+def drive(cases):
+    """run the Lean driver; all observations on one operator go into ONE batch line (the represented
+    matrix and the magnitude bound are computed once per operator) -> {case id: answer}"""
+    groups = {}
+    for c in cases:
+        # nospec cases (large operators) share nothing: one line each, so that they spread over the processes
+        key = (common.canon(c["op"]), False) if not c.get("nospec") else (str(c["id"]), True)
+        groups.setdefault(key, []).append(c)
+    lines = []
+    for gi, ((_, nospec), cs) in enumerate(groups.items()):
+        items = [{k: v for k, v in c.items() if k in ("call", "k", "alg", "bs")} for c in cs]
+        lines.append({"id": gi, "call": "batch", "op": cs[0]["op"], "items": items, "nospec": nospec, "_ids": [c["id"] for c in cs]})
+    heavy = any(l["nospec"] for l in lines)
+    payload = [{k: v for k, v in l.items() if k != "_ids"} for l in lines]
+    res = oracle.run_driver(payload, driver=DRIVER, nproc=min(16, max(1, len(lines))) if heavy else None)
+    out = {}
+    for l in lines:
+        a = res.get(l["id"], {"error": "no answer from driver"})
+        for pos, cid in enumerate(l["_ids"]):
+            if "error" in a:
+                out[cid] = {"error": a["error"]}
+                continue
+            one = {k: v for k, v in a.items() if k != "results"}
+            one.update(a["results"][pos])
+            one["id"] = cid
+            out[cid] = one
+    return out
 
 
 # ------------------------------------------------------------------------------------------ engine
@@ -177,6 +248,7 @@ class Engine:
         self.distinct = set()
         self.samples = []
         self.nid = 0
+        self.reported = 0
         self.known = dict(common.known_clauses(ctx.prop))
         self.known_what = {k: v["what"] for k, v in self.known.items()}
         for k, v in PROVISIONAL_KNOWN.items():
@@ -188,12 +260,20 @@ class Engine:
         return kw
 
     def evaluate(self, cases):
-        ans = oracle.run_driver(cases, driver=DRIVER)
+        ans = drive(cases)
         out = []
         B = build.Builder()
         for c in cases:
             a = ans.get(c["id"], {"error": "no answer from driver"})
             real = real_call(c, B)
+            if c.get("nospec") and "error" not in a:
+                # large operators: the specification side is numpy on the dense matrix of the operator
+                # (to_dense = den is C01); magnitudes stay far below 2^24 (payloads <= 3, <= 3 banded factors)
+                Dm = np.asarray(B.build(c["op"]).to_dense())
+                a = dict(a)
+                a["spec"] = build.exact_mat(np.diag(Dm, int(c["k"])) if c["call"] == "diag" else np.trace(Dm))
+                a["absbound"] = float(np.abs(Dm).max()) * 9
+                a["tracebound"] = float(np.abs(Dm).sum())
             st, det = classify(c, a, real, self.known_what)
             out.append((c, a, real, st, det))
         return out
@@ -207,7 +287,11 @@ class Engine:
             return False
         if bound_of(c, a) >= treecheck.exact_bound(c):
             return False
-        return "ok" in real and real["ok"] != a["spec"]
+        if a.get("clauses"):
+            return False          # recorded defects (and hypotheses of C01) are not what a replay should show
+        if "err" in real:
+            return (c["call"] == "diag" and a.get("drule", "").endswith("LinearOperator") and "ok" in a.get("code", {}))
+        return real["ok"] != a["spec"]
 
     def shrink(self, case):
         cur = case
@@ -262,6 +346,10 @@ class Engine:
                 self.distinct.add(common.canon([c["op"], c["call"], c.get("k"), c.get("alg")]))
             if st == "ok" and len(self.samples) < 4 and nontrivial(c) and len(json.dumps(c)) < 700:
                 self.samples.append({"case": c, "model": a.get("code"), "spec": a.get("spec")})
+        if st in ("violation", "stale-model"):
+            self.reported += 1
+            if self.reported > MAX_REPORTS:      # a broken tree fails thousands of cases: report the first few, count the rest
+                return
         if st == "known":
             for cl in det:
                 common.known_finding(ctx, cl, self.known_what[cl])
@@ -392,71 +480,66 @@ def big_k_sample(rng, n, count):
     return list(dict.fromkeys(pick))
 
 
+def numpy_judge(case, B=None):
+    """real code vs numpy on the dense matrix of the operator (no Lean model involved): -> (good, detail)"""
+    B = B or build.Builder()
+    A = B.build(case["op"])
+    ref = np.asarray(A.to_dense())
+    real = real_call(case, B)
+    want = build.exact_mat(np.diag(ref, int(case["k"])) if case["call"] == "diag" else np.trace(ref))
+    if "err" in real:
+        # a refusal would be allowed by the property, but the probing path has no reason to refuse a square
+        # operator: the model (and theorem C08_exact) say it returns the diagonal
+        return False, {"real": real, "want": want, "why": "the probing path refused a square operator"}
+    if real["ok"] != want:
+        return False, {"real": real["ok"], "want": want, "why": "values differ from numpy's diagonal / trace of the dense matrix"}
+    return True, None
+
+
+def int_rows(M):
+    if np.iscomplexobj(M):
+        return [[[int(z.real), int(z.imag)] if z.imag != 0 else int(z.real) for z in row] for row in M]
+    return [[int(z) for z in row] for row in M]
+
+
 def stream_b_numpy(ctx, eng, rng):
     """real code at the true sizes on the generic probing path vs numpy's np.diag / np.trace"""
-    import cola
-    from cola.linalg.algorithm_base import Auto
-    from cola.linalg.trace.diagonal_estimation import Exact
-    from cola.ops import Dense, Product
     nprng = np.random.default_rng(ctx.seed * 101 + 7)
     checked = 0
-    sizes = BIG_N if ctx.thorough else BIG_N
+    reported = 0
     reps = 3 if ctx.thorough else 1
-    for n in sizes:
+    for n in BIG_N:
         for rep in range(reps):
             for cplx in (False, True):
-                M = nprng.integers(-3, 4, size=(n, n)).astype(np.float64) * (nprng.random((n, n)) < 0.15)
+                dt = "c128" if cplx else "f64"
+                M = nprng.integers(-3, 4, size=(n, n)) * (nprng.random((n, n)) < 0.15)
                 if cplx:
                     M = M + 1j * (nprng.integers(-3, 4, size=(n, n)) * (nprng.random((n, n)) < 0.15))
-                forms = [("no_dispatch(Dense)", lambda: cola.fns.no_dispatch(Dense(M)), M)]
-                P = np.eye(n)[nprng.permutation(n)]
-                forms.append(("Product(Dense, Dense)", lambda: Product(Dense(M), Dense(P.astype(M.dtype))), M @ P))
-                for name, mkop, ref in forms:
-                    A = mkop()
-                    for k in big_k_sample(rng, n, 9 if not ctx.thorough else 19):
-                        alg = rng.choice(ALGS)
+                perm = [int(x) for x in nprng.permutation(n)]
+                dense = ["dense", dt, n, n, int_rows(M)]
+                forms = [("no_dispatch(Dense)", ["generic", dense]), ("Product(Dense, Permutation)", ["prod", dense, ["perm", dt, perm]])]
+                B = build.Builder()
+                for name, e in forms:
+                    cases = [{"call": "diag", "op": e, "k": k, "alg": rng.choice(ALGS), "oracle": "numpy"}
+                             for k in big_k_sample(rng, n, 9 if not ctx.thorough else 19)]
+                    cases += [{"call": "trace", "op": e, "k": 0, "alg": alg, "oracle": "numpy"} for alg in ALGS]
+                    for c in cases:
                         checked += 1
                         eng.stats["evaluations"] += 1
                         eng.stats["stream-B-numpy"] += 1
-                        try:
-                            got = np.asarray(cola.linalg.diag(A, k) if alg == "omitted" else
-                                             cola.linalg.diag(A, k, Auto() if alg == "auto" else Exact()))
-                            want = np.diag(ref, k)
-                            good = got.shape == want.shape and np.array_equal(got, want)
-                            err = None
-                        except Exception as ex:  # noqa: BLE001
-                            good, err, got = True, treecheck.err_class(ex), None   # a refusal is allowed by the property …
-                            good = False                                           # … but the probing path never refuses a square operator
+                        good, det = numpy_judge(c, B)
                         if good:
                             eng.stats["ok"] += 1
                             eng.size_hist[n] += 1
-                            eng.k_hist["big|k|>=100" if abs(k) >= 100 else "big|k|<100"] += 1
-                            eng.distinct.add(common.canon(["B", name, n, k, cplx, rep, alg]))
+                            if c["call"] == "diag":
+                                eng.k_hist["big|k|>=100" if abs(c["k"]) >= 100 else "big|k|<100"] += 1
+                            eng.distinct.add(common.canon(["B", name, n, c["call"], c["k"], cplx, rep, c["alg"]]))
                         else:
                             eng.stats["violation"] += 1
-                            common.violation(ctx, {"stream": "block-boundary (numpy oracle)", "form": name, "n": n, "k": k, "alg": alg,
-                                                   "complex": cplx, "matrix": build.exact_mat(ref) if n <= 130 else "seeded, see replay_cmd",
-                                                   "np_seed": ctx.seed * 101 + 7, "raised": err,
-                                                   "got": None if got is None else build.exact_mat(got), "want": build.exact_mat(np.diag(ref, k)),
-                                                   "replay_cmd": f"VERIF_SEED={ctx.seed} ./check {ctx.prop} {ctx.tier}"})
-                    for alg in ALGS:
-                        checked += 1
-                        eng.stats["evaluations"] += 1
-                        eng.stats["stream-B-numpy"] += 1
-                        try:
-                            got = np.asarray(cola.linalg.trace(A) if alg == "omitted" else
-                                             cola.linalg.trace(A, Auto() if alg == "auto" else Exact()))
-                            good = got.shape == () and got == np.trace(ref)
-                        except Exception as ex:  # noqa: BLE001
-                            good = False
-                        if good:
-                            eng.stats["ok"] += 1
-                            eng.distinct.add(common.canon(["B-trace", name, n, cplx, rep, alg]))
-                        else:
-                            eng.stats["violation"] += 1
-                            common.violation(ctx, {"stream": "block-boundary trace (numpy oracle)", "form": name, "n": n, "alg": alg,
-                                                   "complex": cplx, "np_seed": ctx.seed * 101 + 7,
-                                                   "replay_cmd": f"VERIF_SEED={ctx.seed} ./check {ctx.prop} {ctx.tier}"})
+                            reported += 1
+                            if reported <= 3:
+                                common.violation(ctx, {"stream": "block-boundary (numpy oracle)", "form": name, "n": n, "case": c, "detail": det,
+                                                       "replay_cmd": f"./check {ctx.prop} quick --replay <this file>"})
     return checked
 
 
@@ -504,8 +587,8 @@ def stream_b_lean_cases(ctx, eng, rng):
         for rep in range(2 if ctx.thorough else 1):
             e = structured_op(rng, n, cplx=rng.random() < 0.4)
             for k in big_k_sample(rng, n, 4 if not ctx.thorough else 8)[:6 if not ctx.thorough else 12]:
-                cases.append(eng.mk(call="diag", op=e, k=k, alg=rng.choice(ALGS)))
-            cases.append(eng.mk(call="trace", op=e, alg=rng.choice(ALGS)))
+                cases.append(eng.mk(call="diag", op=e, k=k, alg=rng.choice(ALGS), nospec=True))
+            cases.append(eng.mk(call="trace", op=e, alg=rng.choice(ALGS), nospec=True))
     return cases
 
 
@@ -513,6 +596,7 @@ def stream_b_lean_cases(ctx, eng, rng):
 def stream_c(ctx, eng, rng, count):
     """Lean model with a scaled-down block-size constant vs the specification (no real code involved)"""
     G = SqGen(rng, max_extent=4, kinds=KINDS, arr_index=False, ann_p=0.05)
+    G.probed = 1       # every operator of this stream goes through the probing loop (see SqGen)
     cases = []
     for _ in range(count):
         n = rng.randint(2, 9)
@@ -521,7 +605,7 @@ def stream_c(ctx, eng, rng, count):
         e = G.op(n, n, rng.choice([0, 1, 2]))
         for k in rng.sample(list(range(-n, n + 1)), 3):
             cases.append(eng.mk(call="exactdiag", op=e, k=k, bs=bs))
-    ans = oracle.run_driver(cases, driver=DRIVER)
+    ans = drive(cases)
     bad = 0
     for c in cases:
         a = ans.get(c["id"], {"error": "no answer"})
@@ -546,6 +630,89 @@ def stream_c(ctx, eng, rng, count):
     return len(cases)
 
 
+# ------------------------------------------------------------------------------------------ stream D
+KIND_EXAMPLES = [
+    ["dense", "f64", 2, 2, [[1, 2], [3, 4]]],
+    ["tri", "f64", 2, 2, True, [[1, 0], [3, 4]]],
+    ["sparse", "f64", 2, 2, [[0, 1, 2]]],
+    ["scalar", "f64", 3, 2],
+    ["eye", "f64", 2],
+    ["prod", ["dense", "f64", 2, 2, [[1, 2], [3, 4]]], ["diag", "f64", [1, 2]]],
+    ["sum", ["dense", "f64", 2, 2, [[1, 2], [3, 4]]], ["diag", "f64", [1, 2]]],
+    ["kron", ["dense", "f64", 2, 2, [[1, 2], [3, 4]]], ["diag", "f64", [1, 2]]],
+    ["kronsum", ["dense", "f64", 2, 2, [[1, 2], [3, 4]]], ["diag", "f64", [1, 2]]],
+    ["bdiag", [["dense", "f64", 2, 2, [[1, 2], [3, 4]]], ["diag", "f64", [1, 2]]], [1, 2]],
+    ["diag", "f64", [1, 2]],
+    ["tridiag", "f64", [1], [2, 3], [4]],
+    ["T", ["sparse", "f64", 2, 2, [[0, 1, 2]]]],
+    ["H", ["sparse", "f64", 2, 2, [[0, 1, 2]]]],
+    ["slice", ["dense", "f64", 3, 3, [[1, 2, 3], [4, 5, 6], [7, 8, 9]]], {"s": [0, 2, None]}, {"s": [1, 3, None]}],
+    ["perm", "f64", [1, 0]],
+    ["concat", 0, ["dense", "f64", 1, 2, [[1, 2]]], ["dense", "f64", 1, 2, [[3, 4]]]],
+    ["house", "f64", [1, 2], 1],
+    ["generic", ["dense", "f64", 2, 2, [[1, 2], [3, 4]]]],
+    ["ann", "PSD", ["dense", "f64", 2, 2, [[2, 1], [1, 2]]]],
+    ["ann", "SelfAdjoint", ["sum", ["dense", "f64", 2, 2, [[2, 1], [1, 2]]], ["diag", "f64", [1, 2]]]],
+    ["ann", "PSD", ["kron", ["diag", "f64", [1, 2]], ["diag", "f64", [1, 2]]]],
+]
+
+
+def stream_d(ctx, eng):
+    """rule selection: for one real instance of every modelled kind and alg in {Auto(), Exact()} the rule the LIVE
+    resolver selects for diag / trace must be the rule the code model applies (first-position class of its signature)"""
+    from cola.linalg.algorithm_base import Auto
+    from cola.linalg.trace.diagonal_estimation import Exact
+    from cola.utils import dispatch
+
+    def cname(t):
+        return f"{t.__module__}.{t.__qualname__}".split("[")[0]
+    cases = [eng.mk(call="diag", op=e, k=0, alg="exact") for e in KIND_EXAMPLES]
+    ans = drive(cases)
+    B = build.Builder()
+    for c in cases:
+        a = ans.get(c["id"], {"error": "no answer"})
+        if "error" in a:
+            ctx.notes.append(f"driver error (stream D): {a['error']}")
+            eng.stats["driver-error"] += 1
+            continue
+        A = B.build(c["op"])
+        for fname, key in (("diag", "drule"), ("trace", "trule")):
+            F = dispatch.functions[fname]
+            F._resolve_pending_registrations()
+            for alg in (Auto(), Exact()):
+                eng.stats["evaluations"] += 1
+                eng.stats["stream-D"] += 1
+                try:
+                    sig = F._resolver.resolve((A, 0, alg) if fname == "diag" else (A, alg))
+                    live = cname(sig.types[0])
+                except Exception as ex:  # noqa: BLE001
+                    live = treecheck.err_class(ex)
+                live_cls = cname(type(A))
+                if live == a[key] and live_cls == a["cls"]:
+                    eng.stats["ok"] += 1
+                    eng.distinct.add(common.canon(["D", c["op"][0], c["op"][1] if c["op"][0] == "ann" else "", fname, type(alg).__name__]))
+                else:
+                    eng.stats["stale-model"] += 1
+                    near = None
+                    for k in (0, 1, -1):
+                        cc = dict(c)
+                        cc.update({"k": k, "alg": "auto" if isinstance(alg, Auto) else "exact", "call": fname})
+                        try:
+                            if eng.fails(cc):
+                                near = cc
+                                break
+                        except Exception:  # noqa: BLE001
+                            pass
+                    if near is not None:
+                        common.violation(ctx, {"case": near, "detail": f"the live resolver selects the {fname} rule of {live} for a {live_cls}, "
+                                               f"the model applies the rule of {a[key]}; on this input the real code contradicts the specification",
+                                               "replay_cmd": f"./check {ctx.prop} quick --replay <this file>"})
+                    else:
+                        common.violation(ctx, {"broken": f"rule selection of {fname}: the live resolver selects the rule of {live} for a {live_cls} "
+                                               f"(alg {type(alg).__name__}), the code model applies the rule of {a[key]} for a {a['cls']}",
+                                               "case": c}, no_input=True)
+
+
 # ------------------------------------------------------------------------------------------ entry
 def run(ctx):
     import shim  # noqa: F401
@@ -557,6 +724,7 @@ def run(ctx):
         gate_err = str(ex)
     rng = random.Random(ctx.seed * 6151 + 8)
     eng = Engine(ctx)
+    timings = {}
     if ctx.replay:
         rp = json.load(open(ctx.replay))
         c = rp.get("case") or rp.get("original_case")
@@ -565,8 +733,17 @@ def run(ctx):
         else:
             c = dict(c)
             c["id"] = 0
-            res = eng.run([c], "replay")
-            print(json.dumps({"replayed": c, "status": [r[3] for r in res], "detail": [str(r[4]) for r in res]})[:3000])
+            if c.get("oracle") == "numpy":
+                good, det = numpy_judge(c)
+                eng.stats["evaluations"] += 1
+                if not good:
+                    common.violation(ctx, {"stream": "block-boundary (numpy oracle)", "case": c, "detail": det,
+                                           "replay_cmd": f"./check {ctx.prop} quick --replay <this file>"})
+                print(json.dumps({"replayed": {k: v for k, v in c.items() if k != "op"}, "status": "ok" if good else "violation",
+                                  "detail": det})[:3000])
+            else:
+                res = eng.run([c], "replay")
+                print(json.dumps({"replayed": c, "status": [r[3] for r in res], "detail": [str(r[4]) for r in res]})[:3000])
     else:
         cases = []
         if os.path.exists(CORPUS):
@@ -574,14 +751,21 @@ def run(ctx):
                 if line.strip():
                     c = json.loads(line)
                     cases.append(eng.mk(**{k: v for k, v in c.items() if k != "id"}))
-        ntrees = 110 if not ctx.thorough else 2500
+        ntrees = 110 if not ctx.thorough else 1200
         cases += stream_a_cases(ctx, eng, rng, ntrees)
+        timings["gate"] = round(ctx.wall(), 1)
         batch = 6000
         for i in range(0, len(cases), batch):
             eng.run(cases[i:i + batch], "A")
+        timings["A"] = round(ctx.wall(), 1)
         eng.run(stream_b_lean_cases(ctx, eng, rng), "B-lean")
+        timings["B-lean"] = round(ctx.wall(), 1)
         stream_b_numpy(ctx, eng, rng)
+        timings["B-numpy"] = round(ctx.wall(), 1)
         stream_c(ctx, eng, rng, 60 if not ctx.thorough else 1200)
+        timings["C"] = round(ctx.wall(), 1)
+        stream_d(ctx, eng)
+        timings["D"] = round(ctx.wall(), 1)
     if gate_err is not None and not ctx.violations:
         common.violation(ctx, {"broken": f"Lean gate of {MODULE}", "detail": gate_err[-3000:]}, no_input=True)
     cov = {
@@ -599,6 +783,7 @@ def run(ctx):
         "samples": eng.samples,
         "provisional_known": PROVISIONAL_KNOWN,
         "notes": ctx.notes[:8],
+        "cumulative_wall_s_after_stage": timings,
         "compare": "exact (Gaussian-integer payloads; cases whose magnitude bound leaves the exactly representable range are 'inexact' and not compared)",
     }
     common.write_evidence(ctx, gate, cov, assumptions=[
